@@ -6,6 +6,8 @@ package ua
 
 import (
 	"fmt"
+	"io"
+	"math"
 	"reflect"
 	"time"
 
@@ -144,6 +146,10 @@ func (m *Variant) Decode(b []byte) (int, error) {
 	if n > MaxVariantArrayLength {
 		return buf.Pos(), StatusBadEncodingLimitsExceeded
 	}
+	// -1 is the null array, any other negative length is invalid
+	if n < -1 {
+		return buf.Pos(), StatusBadEncodingLimitsExceeded
+	}
 
 	// get the type for the slice
 	sliceType := reflect.SliceOf(typ)
@@ -172,6 +178,10 @@ func (m *Variant) Decode(b []byte) (int, error) {
 		if m.arrayDimensionsLength < 0 {
 			return buf.Pos(), StatusBadEncodingLimitsExceeded
 		}
+		// every dimension takes four bytes: do not allocate more than the buffer can hold
+		if int(m.arrayDimensionsLength) > buf.Len()/4 {
+			return buf.Pos(), io.ErrUnexpectedEOF
+		}
 		m.arrayDimensions = make([]int32, m.arrayDimensionsLength)
 		for i := 0; i < int(m.arrayDimensionsLength); i++ {
 			m.arrayDimensions[i] = buf.ReadInt32()
@@ -191,11 +201,16 @@ func (m *Variant) Decode(b []byte) (int, error) {
 	// validate that the total number of elements
 	// matches the product of the array dimensions
 	if m.arrayDimensionsLength > 0 {
-		count := int32(1)
+		// the product is computed in 64 bit and checked after every step
+		// since it can overflow an int32
+		count := int64(1)
 		for i := range m.arrayDimensions {
-			count *= m.arrayDimensions[i]
+			count *= int64(m.arrayDimensions[i])
+			if count > math.MaxInt32 {
+				return buf.Pos(), errUnbalancedSlice
+			}
 		}
-		if count != m.arrayLength {
+		if count != int64(m.arrayLength) {
 			return buf.Pos(), errUnbalancedSlice
 		}
 	}
